@@ -19,7 +19,7 @@ RULE = (
     "descriptor digest; non-trivial = the reference matrix has an off-diagonal-block element > 1e-6 "
     "(single-shell cases: any off-diagonal element inside the shell block, or l>0)."
 )
-FLOOR = {"quick": 30, "thorough": 400}
+FLOOR = {"quick": 30, "thorough": 1000}
 DECIDING = ["eval:overlap_integral", "eval:overlap_integral_asymmetric", "kernel:Overlap"]
 REQUIRED_LINES = [
     ("gbasis/integrals/overlap.py", "return Overlap(basis).construct_array_mix(coord_type, **kwargs)"),
@@ -34,7 +34,7 @@ ASSUMPTIONS = [
 
 
 def gen_cases(tier, seed):
-    reps = 2 if tier == "quick" else 120
+    reps = 2 if tier == "quick" else 360
     cases = []
     pairs = list(itertools.product(range(6), repeat=2))
     for rep in range(reps):
